@@ -407,9 +407,8 @@ Qed.
 Lemma coh_restart : forall s,
   NoDup (map fst (d_roots (db s))) -> NoDup (map fst (d_hooks (db s))) -> coh (restart s).
 Proof.
-  intros s N1 N2. unfold coh, restart, load. cbn. repeat split; auto.
-  - apply build_tree_inv. exact N2.
-  - apply build_tree_inv. exact N2.
+  intros s N1 N2. unfold coh, restart, load. cbn.
+  pose proof (build_tree_inv _ N2) as T. repeat split; auto; apply T.
 Qed.
 
 Lemma coh_init : coh init.
@@ -441,24 +440,18 @@ Proof.
     + apply expire_nodup. exact Nd.
   - (* RegisterHook *)
     pose proof (next_id_fresh (d_hooks d)) as Hfresh.
-    unfold coh. cbn. rewrite Hh in *. rewrite (aset_fresh _ _ _ _ Hfresh).
-    repeat split; auto.
-    + rewrite map_app. cbn. apply NoDup_snoc; auto.
-    + apply add_scopes_nodup. apply Ht.
-    + rewrite <- (aset_fresh _ _ {| h_url := url; h_scopes := scopes |} _ Hfresh).
-      eapply tree_inv_upd; [exact Ht | apply add_scopes_nodup; apply Ht |].
+    unfold coh. cbn. rewrite Hh in *.
+    assert (tree_inv (add_scopes (m_tree m) (next_id (d_hooks d)) scopes)
+                     (aset (next_id (d_hooks d)) {| h_url := url; h_scopes := scopes |} (d_hooks d))) as T.
+    { eapply tree_inv_upd; [exact Ht | apply add_scopes_nodup; apply Ht |].
       intros x. rewrite add_scopes_in. cbn. split.
-      * intros [H|H]; [left; split; [exact H|] | right; exact H].
-        intros E. destruct x as [p i]. cbn in E. subst i. destruct Ht as [_ I1]. apply I1 in H.
+      - intros [H|H]; [left; split; [exact H|] | right; exact H].
+        intros E. destruct x as [q i]. cbn in E. subst i. destruct Ht as [_ I1]. apply I1 in H.
         destruct H as [h [H _]]. apply alookup_some_key in H. auto.
-      * intros [[H _]|H]; auto.
-    + rewrite <- (aset_fresh _ _ {| h_url := url; h_scopes := scopes |} _ Hfresh).
-      eapply tree_inv_upd; [exact Ht | apply add_scopes_nodup; apply Ht |].
-      intros x. rewrite add_scopes_in. cbn. split.
-      * intros [H|H]; [left; split; [exact H|] | right; exact H].
-        intros E. destruct x as [p i]. cbn in E. subst i. destruct Ht as [_ I1]. apply I1 in H.
-        destruct H as [h [H _]]. apply alookup_some_key in H. auto.
-      * intros [[H _]|H]; auto.
+      - intros [[H _]|H]; auto. }
+    rewrite (aset_fresh _ _ _ _ Hfresh) in *.
+    repeat split; auto; try apply T.
+    rewrite map_app. cbn. apply NoDup_snoc; auto.
   - (* UpdateHook *)
     destruct (alookup id (d_hooks d)) as [h0|] eqn:E.
     + rewrite Hh. rewrite E. unfold coh. cbn. rewrite Hh in *.
@@ -477,7 +470,7 @@ Proof.
     unfold coh. cbn.
     destruct (alookup a (m_bal m)) as [[b0 n0]|] eqn:E; cbn; repeat split; auto; try apply Ht.
     + pose proof (open_count_aset (m_bal m) a (mem_balance {| db := d; mem := m; budgets := bs |} a + amt)%N n0) as Hc'.
-      rewrite E in Hc'. lia.
+      rewrite E in Hc'. unfold open_count in *. lia.
     + apply forall_aset; [exact Hf|]. apply (forall_alookup _ _ _ _ Hf E).
   - (* OpenBudget *)
     destruct (alookup b bs) as [x|] eqn:Eb.
@@ -485,11 +478,11 @@ Proof.
     destruct (alookup a (m_bal m)) as [[b0 n0]|] eqn:E.
     + destruct (b0 <? amt)%N; unfold coh; cbn; repeat split; auto; try apply Ht.
       * rewrite length_aset_none by exact Eb.
-        pose proof (open_count_aset (m_bal m) a (b0 - amt)%N (n0 + 1)%N) as Hc'. rewrite E in Hc'. lia.
+        pose proof (open_count_aset (m_bal m) a (b0 - amt)%N (n0 + 1)%N) as Hc'. rewrite E in Hc'. unfold open_count in *. lia.
       * apply forall_aset; [exact Hf | cbn; lia].
     + destruct (bal_of (d_bal d) a <? amt)%N; unfold coh; cbn; repeat split; auto; try apply Ht.
       * rewrite length_aset_none by exact Eb.
-        pose proof (open_count_aset (m_bal m) a (bal_of (d_bal d) a - amt)%N (0 + 1)%N) as Hc'. rewrite E in Hc'. lia.
+        pose proof (open_count_aset (m_bal m) a (bal_of (d_bal d) a - amt)%N 1%N) as Hc'. rewrite E in Hc'. unfold open_count in *. lia.
       * apply forall_aset; [exact Hf | cbn; lia].
   - (* CommitBudget *)
     destruct (alookup b bs) as [[a mx]|] eqn:Eb.
@@ -497,11 +490,11 @@ Proof.
     pose proof (length_aremove_some _ _ _ _ Eb) as Hl.
     destruct (bal_of (d_bal d) a <? spend)%N.
     + destruct (close_budget (m_bal m) a mx) as [mb| |] eqn:Ec.
-      * destruct (close_budget_inv _ _ _ _ Ec Hf) as [C1 C2]. unfold coh. cbn. repeat split; auto; try apply Ht. lia.
+      * destruct (close_budget_inv _ _ _ _ Ec Hf) as [C1 C2]. unfold coh. cbn. repeat split; auto; try apply Ht. unfold open_count in *. lia.
       * unfold coh. cbn. repeat split; auto; apply Ht.
       * unfold coh. cbn. repeat split; auto; apply Ht.
     + destruct (close_budget (m_bal m) a (mx - spend)%N) as [mb| |] eqn:Ec.
-      * destruct (close_budget_inv _ _ _ _ Ec Hf) as [C1 C2]. unfold coh. cbn. repeat split; auto; try apply Ht. lia.
+      * destruct (close_budget_inv _ _ _ _ Ec Hf) as [C1 C2]. unfold coh. cbn. repeat split; auto; try apply Ht. unfold open_count in *. lia.
       * unfold coh. cbn. repeat split; auto; apply Ht.
       * unfold coh. cbn. repeat split; auto; apply Ht.
   - (* RollbackBudget *)
@@ -509,7 +502,7 @@ Proof.
     2:{ unfold coh. cbn. repeat split; auto; apply Ht. }
     pose proof (length_aremove_some _ _ _ _ Eb) as Hl.
     destruct (close_budget (m_bal m) a mx) as [mb| |] eqn:Ec.
-    + destruct (close_budget_inv _ _ _ _ Ec Hf) as [C1 C2]. unfold coh. cbn. repeat split; auto; try apply Ht. lia.
+    + destruct (close_budget_inv _ _ _ _ Ec Hf) as [C1 C2]. unfold coh. cbn. repeat split; auto; try apply Ht. unfold open_count in *. lia.
     + unfold coh. cbn. repeat split; auto; apply Ht.
     + unfold coh. cbn. repeat split; auto; apply Ht.
   - (* AddVol *) unfold coh. cbn. repeat split; auto; try apply Ht. rewrite map_app. cbn. congruence.
@@ -539,7 +532,7 @@ Proof.
   assert (m_bal m = []) as Hb by (apply no_budget_no_entry; [exact Hc | exact Hf]).
   split.
   - unfold observe, restart, load, mem_balance. cbn. rewrite Hb, Hh, Hs, Htip. f_equal.
-    apply map_ext. intros c. symmetry. apply Hr.
+    apply map_ext. intros c. f_equal. symmetry. apply Hr.
   - intros e. unfold deliver, restart, load. cbn. rewrite Hh.
     apply deliver_perm. eapply tree_inv_perm; [apply build_tree_inv; exact Nh | rewrite <- Hh; exact Ht].
 Qed.
